@@ -70,6 +70,15 @@ def api_scenarios(R):
     p = R.path("c16-uts.elf")
     dumpgen.write_elf(p, [dict(paddr=0x1e15000, filesz=4096, memsz=4096, voff=0xffffffff81e15000 - 0x1e15000, data=uts)], notes=note)
     lines += ["open 1 %s" % p, "setstr addrxlat.ostype linux", "attr linux.uts.nodename", "attr linux.uts.release"]
+    # the same fallback when the memory at init_uts_ns does not hold a utsname: a failure that must carry its message
+    p2 = R.path("c16-uts-bad.elf")
+    bad = b"\0" * 0x2e0 + struct.pack("<I", 6) + b"".join(x.ljust(65, b"\0") for x in (b"Minix", b"n", b"r", b"v", b"m", b"d"))
+    dumpgen.write_elf(p2, [dict(paddr=0x1e15000, filesz=4096, memsz=4096, voff=0xffffffff81e15000 - 0x1e15000, data=bad)], notes=note)
+    lines += ["open 1 %s" % p2, "setstr addrxlat.ostype linux", "attr linux.uts.nodename"]
+    # a file name that was set and removed again must not be used by the message of a later failing open
+    lines += ["open 1 %s" % paths[0], "setfn /var/crash/2026-09-30/an-earlier-dump-file-name-long-enough-to-live-on-the-heap.dump", "setfn -",
+              "reopen %s" % variants[2], "attr file.format", "setfn /x/second-name-of-this-context.dump", "reopen %s" % variants[3], "setfn -",
+              "reopen %s" % variants[1], "reopen %s" % paths[0], "attr file.format"]
     exe = R.build_harness("s_fmt", ["s_fmt.c"])
     rc, out, err = R.run_harness(exe, stdin_text="\n".join(lines) + "\n")
     obs = kdf.obs(out)
@@ -109,6 +118,10 @@ def run(R):
             if op[0] == "clear":
                 lines.append("clear"); meta.append((si, "clear"))
             else:
+                if R.rng.random() < 0.07:
+                    # a format string that vsnprintf() rejects
+                    lines.append("addbad %d" % op[2]); meta.append((si, "add", b"(bad format string)", op[2]))
+                    continue
                 m = msg_bytes(R.rng, op[1])
                 lines.append(("add %s %d" % (m.hex(), op[2])).replace("  ", " ")); meta.append((si, "add", m, op[2]))
     text = "\n".join(lines) + "\n"
